@@ -157,7 +157,6 @@ Proof.
 Qed.
 
 Section LogConn.
-Variable norm : bytes -> bytes.
 Variable maxc : N.
 
 Lemma input_loop_pk : forall fuel dest new r w p r' w', input_loop maxc fuel dest new r w = (p, r', w') ->
@@ -275,7 +274,7 @@ Proof.
   match goal with |- context [set_stream ?p ?s] => destruct (set_stream p s) as [p'| |] eqn:ES end; [|apply lg_refl|apply lg_refl].
   apply set_stream_sreq in ES.
   match goal with |- context [await_input maxc ?fu ?d ?r0 w] => pose proof (await_input_k fu d r0 w) as H; destruct (await_input maxc fu d r0 w) as [[[v|k] r'] w'|o w'] end;
-    cbn [aik dwk rsp] in *.
+    cbn [aik] in H; cbn [dwk].
   - destruct H as [[Q L] _]. cbn [rsp] in Q. split; [split; [congruence|exact L]|discriminate].
   - destruct H as [[Q L] Nk]. cbn [rsp] in Q. split; [split; [congruence|exact L]|]. intros X. injection X as ->. exact (Nk _ eq_refl eq_refl).
   - exact H.
@@ -383,7 +382,9 @@ Proof.
                 | match goal with H : set_stream _ _ = SetOk _ |- _ => exact (conj (set_stream_sreq _ _ _ H) (lg_refl w)) end ] ].
 Qed.
 
-Lemma parse_request_lg : forall fuel p new w, lg w (res_w (parse_request norm maxc fuel p new w)).
+End LogConn.
+
+Lemma parse_request_lg norm maxc : forall fuel p new w, lg w (res_w (parse_request norm maxc fuel p new w)).
 Proof.
   induction fuel as [|f IH]; intros p new w; [apply lg_refl|]. cbn [parse_request].
   destruct (parse norm maxc p new) as [p' done out|n]; [|apply lg_refl].
@@ -398,4 +399,166 @@ Proof.
     + apply (lg_eq _ w1); [exact AR|exact W1].
     + apply (lg_eq _ w1); [exact AR|exact W1].
 Qed.
-End LogConn.
+
+(* ------------------------------------------------------------------------------------------ *)
+(* Part 3: what a completed Request::close appended                                             *)
+(* ------------------------------------------------------------------------------------------ *)
+Lemma close_entry maxc r1 d c w2 x w3 :
+  do_close maxc r1 d c w2 = Ok x w3 -> (x = inr EK_Reset \/ exists rp, x = inl rp) ->
+  exists replies app ps, exit_to_end d c = Some (app, ps) /\
+    wlog w3 = wlog w2 ++ replies ++
+      (if (match do_writeable maxc r1 w2 with Ok (_, r2) _ => rwriteable r2 | Halt _ _ => false end)
+       then hdr_encode RT_Stdout (r_id (sreq (rsp r1))) 0 0 ++ hdr_encode RT_Stderr (r_id (sreq (rsp r1))) 0 0 else []) ++
+      end_record app ps (r_id (sreq (rsp r1))).
+Proof.
+  intros E Hx. destruct (do_close_cases maxc r1 d c w2 x w3 E) as (e & r1' & w1' & EW & [[He ECT]|(k & He & Hk & Hxk & Hw)]).
+  - rewrite EW. pose proof (do_writeable_k maxc r1 w2) as DW. rewrite EW in DW. destruct DW as [[Q [fl L]] _].
+    destruct (close_tail_log_shape maxc r1' d c w1' x w3 ECT Hx) as (p2 & r3 & w2' & ast & ps & S1 & S2 & S3 & S4 & S5).
+    cbv zeta in S5.
+    pose proof (record_boundary_k maxc (mkR p2 (rwriteable r1') (rlock r1') (raborted r1')) w1') as RB. rewrite S2 in RB.
+    destruct RB as [Q3 _]. cbn [rsp] in Q3. apply set_stream_sreq in S1.
+    assert (Hid : sreq (rsp r3) = sreq (rsp r1)) by congruence.
+    exists (fl ++ output_buffer (rsp r3)), ast, ps. split; [exact S4|].
+    rewrite S5, S3, L, Hid. destruct (rwriteable r1'); rewrite <- !app_assoc; reflexivity.
+  - exfalso. pose proof (do_writeable_k maxc r1 w2) as DW. rewrite EW in DW. destruct DW as [_ Nk].
+    destruct Hx as [Hx|[rp Hx]]; [|congruence]. apply Nk. congruence.
+Qed.
+
+(* ------------------------------------------------------------------------------------------ *)
+(* Part 4: the whole connection                                                                 *)
+(* ------------------------------------------------------------------------------------------ *)
+Definition all_closed (l : list served) : Prop := Forall (fun s => sv_closed s <> None) l.
+
+Lemma last_nonempty {A} (l : list A) d d' : l <> [] -> last l d = last l d'.
+Proof.
+  induction l as [|a t IH]; intros H; [contradiction|]. destruct t as [|b t']; [reflexivity|].
+  change (last (b :: t') d = last (b :: t') d'). apply IH. discriminate.
+Qed.
+
+Lemma last_cons {A} (a : A) l d : last (a :: l) d = last l a.
+Proof.
+  destruct l as [|b t]; [reflexivity|]. change (last (b :: t) d = last (b :: t) a). apply last_nonempty. discriminate.
+Qed.
+
+Definition entry_end (s : served) : bytes := match sv_closed s with Some L2 => L2 | None => sv_ret s end.
+
+Lemma last_log_snoc start l e : last_log start (l ++ [e]) = entry_end e.
+Proof. unfold last_log. rewrite map_app. cbn [map]. apply last_last. Qed.
+
+Lemma last_log_cons_closed start s t L2 : sv_closed s = Some L2 -> last_log start (s :: t) = last_log L2 t.
+Proof. intros H. unfold last_log. cbn [map]. rewrite H. apply last_cons. Qed.
+
+Lemma chained_snoc : forall l start e, chained start l -> all_closed l -> is_prefix (last_log start l) (sv_start e) ->
+  chained start (l ++ [e]).
+Proof.
+  induction l as [|s t IH]; intros start e C A P.
+  - cbn [app chained]. split; [exact P|]. destruct (sv_closed e); [exact I|reflexivity].
+  - cbn [app chained] in *. destruct C as [C1 C2]. split; [exact C1|]. inversion A as [|? ? A1 A2]; subst.
+    destruct (sv_closed s) as [L2|] eqn:Ec; [|contradiction].
+    apply IH; [exact C2|exact A2|]. rewrite (last_log_cons_closed start s t L2 Ec) in P. exact P.
+Qed.
+
+Lemma all_closed_snoc l e : all_closed l -> sv_closed e <> None -> all_closed (l ++ [e]).
+Proof. intros A H. apply Forall_app. split; [exact A|]. constructor; [exact H|constructor]. Qed.
+
+Lemma Forall_snoc {A} (P : A -> Prop) l e : Forall P l -> P e -> Forall P (l ++ [e]).
+Proof. intros A0 H. apply Forall_app. split; [exact A0|]. constructor; [exact H|constructor]. Qed.
+
+Lemma wlog_fold_ev (env : list (bytes * bytes)) : forall w,
+  wlog (fold_left (fun w p => w_ev (w_ev w (fst p)) (snd p)) env w) = wlog w.
+Proof. induction env as [|e t IH]; intros w; [reflexivity|]. cbn [fold_left]. rewrite IH. reflexivity. Qed.
+
+Lemma abort_status_map app ps : exit_to_end EXIT_Complete EXIT_ABORT_CODE = Some (app, ps) ->
+  app = EXIT_ABORT_CODE /\ ps = PS_RequestComplete.
+Proof. intros H. vm_compute in H. injection H as <- <-. split; reflexivity. Qed.
+
+Lemma run_loop_log_inv norm maxc : forall fuel p scripts n w acc start,
+  Forall entry_ok acc -> chained start acc -> all_closed acc -> is_prefix (last_log start acc) (wlog w) ->
+  let '(o, w', l) := run_loop_log norm maxc fuel p scripts n w acc in
+  Forall entry_ok l /\ chained start l /\ is_prefix (last_log start l) (wlog w').
+Proof.
+  induction fuel as [|f IH]; intros p scripts n w acc start HF HC HA HP.
+  { cbn [run_loop_log]. split; [exact HF|split; [exact HC|exact HP]]. }
+  cbn [run_loop_log]. destruct (stopped w); [split; [exact HF|split; [exact HC|exact HP]]|].
+  assert (SAME : forall w', lg w w' -> Forall entry_ok acc /\ chained start acc /\ is_prefix (last_log start acc) (wlog w')).
+  { intros w' L. split; [exact HF|split; [exact HC|]]. eapply is_prefix_trans; [exact HP|exact L]. }
+  pose proof (parse_request_lg norm maxc (io_fuel w 0) p [] w) as PR.
+  destruct (parse_request norm maxc (io_fuel w 0) p [] w) as [[s0|k] w1|o w1]; cbn [res_w] in PR;
+    [|apply SAME; exact PR|apply SAME; exact PR].
+  cbv zeta.
+  set (rq := sreq s0).
+  set (r0 := mkR s0 (len (role_input_streams (r_role rq)) <=? 1) false false).
+  match goal with |- context [run_handler maxc ?fu ?sc r0 ?ww] => set (w2 := ww); set (script := sc) end.
+  assert (E2 : wlog w2 = wlog w1) by (subst w2; rewrite wlog_fold_ev; reflexivity).
+  assert (L2 : lg w w2) by (apply (lg_eq _ w1); [exact E2|exact PR]).
+  pose proof (run_handler_k maxc (length script + 2) script r0 w2) as RH.
+  destruct (run_handler maxc (length script + 2) script r0 w2) as [[st r1] w3|o w3]; cbn [kpost] in RH.
+  2:{ apply SAME. eapply lg_trans; eassumption. }
+  destruct RH as [Q1 L3]. cbn [rsp] in Q1. fold rq in Q1.
+  assert (HPs : is_prefix (last_log start acc) (wlog w2)) by (eapply is_prefix_trans; [exact HP|exact L2]).
+  (* whatever is recorded for this invocation, it extends the chain *)
+  assert (SNOC : forall gate closed,
+            entry_ok (mkServed rq st gate (wlog w2) (wlog w3) closed) ->
+            Forall entry_ok (acc ++ [mkServed rq st gate (wlog w2) (wlog w3) closed]) /\
+            chained start (acc ++ [mkServed rq st gate (wlog w2) (wlog w3) closed])).
+  { intros gate closed He. split; [apply Forall_snoc; assumption|]. apply chained_snoc; [exact HC|exact HA|exact HPs]. }
+  assert (OPEN : forall gate w', lg w3 w' ->
+            Forall entry_ok (acc ++ [mkServed rq st gate (wlog w2) (wlog w3) None]) /\
+            chained start (acc ++ [mkServed rq st gate (wlog w2) (wlog w3) None]) /\
+            is_prefix (last_log start (acc ++ [mkServed rq st gate (wlog w2) (wlog w3) None])) (wlog w')).
+  { intros gate w' L. destruct (SNOC gate None) as [S1 S2]; [split; [exact L3|exact I]|].
+    split; [exact S1|split; [exact S2|]]. rewrite last_log_snoc. exact L. }
+  (* the close step, for the status the loop computed *)
+  assert (CLOSE : forall d c, (forall app ps, exit_to_end d c = Some (app, ps) ->
+                                answered_with (mkServed rq st false [] [] None) app ps) ->
+    let '(o, w', l) :=
+      match do_close maxc r1 d c w3 with
+      | Halt o w4 => (o, w4, acc ++ [mkServed rq st (match do_writeable maxc r1 w3 with Ok (_, r2) _ => rwriteable r2 | Halt _ _ => false end)
+                                       (wlog w2) (wlog w3) None])
+      | Ok (inl rp) w4 => run_loop_log norm maxc f rp scripts (S n) w4
+                            (acc ++ [mkServed rq st (match do_writeable maxc r1 w3 with Ok (_, r2) _ => rwriteable r2 | Halt _ _ => false end)
+                                       (wlog w2) (wlog w3) (Some (wlog w4))])
+      | Ok (inr k) w4 => (ORet, w4, acc ++ [mkServed rq st (match do_writeable maxc r1 w3 with Ok (_, r2) _ => rwriteable r2 | Halt _ _ => false end)
+                                       (wlog w2) (wlog w3) (if k =? EK_Reset then Some (wlog w4) else None)])
+      end in
+    Forall entry_ok l /\ chained start l /\ is_prefix (last_log start l) (wlog w')).
+  { intros d c Hans.
+    set (gate := match do_writeable maxc r1 w3 with Ok (_, r2) _ => rwriteable r2 | Halt _ _ => false end).
+    pose proof (do_close_lg maxc r1 d c w3) as DL.
+    assert (DONE : forall x w4, do_close maxc r1 d c w3 = Ok x w4 -> (x = inr EK_Reset \/ exists rp, x = inl rp) ->
+              entry_ok (mkServed rq st gate (wlog w2) (wlog w3) (Some (wlog w4)))).
+    { intros x w4 E Hx. destruct (close_entry maxc r1 d c w3 x w4 E Hx) as (replies & app & ps & X1 & X2).
+      split; [exact L3|]. cbn [sv_closed sv_ret sv_gate sv_req]. exists replies, app, ps. split.
+      - exact (Hans app ps X1).
+      - fold gate in X2. rewrite Q1 in X2. exact X2. }
+    destruct (do_close maxc r1 d c w3) as [[rp|k] w4|o w4] eqn:EC; cbn [res_w] in DL.
+    - pose proof (DONE _ _ eq_refl (or_intror (ex_intro _ rp eq_refl))) as He.
+      destruct (SNOC gate (Some (wlog w4)) He) as [S1 S2].
+      apply IH; [exact S1|exact S2|apply all_closed_snoc; [exact HA|discriminate]|].
+      rewrite last_log_snoc. apply is_prefix_refl.
+    - destruct (N.eqb_spec k EK_Reset) as [Hk|Hk].
+      + subst k. pose proof (DONE _ _ eq_refl (or_introl eq_refl)) as He.
+        destruct (SNOC gate (Some (wlog w4)) He) as [S1 S2]. split; [exact S1|split; [exact S2|]].
+        rewrite last_log_snoc. apply is_prefix_refl.
+      + apply OPEN. exact DL.
+    - apply OPEN. exact DL. }
+  destruct st as [[d c]|k].
+  - apply CLOSE. intros app ps H. exact H.
+  - destruct ((k =? EK_Aborted) && raborted r1).
+    + apply CLOSE. intros app ps H. cbn [answered_with sv_result]. apply abort_status_map. exact H.
+    + apply OPEN. apply lg_refl.
+Qed.
+
+Theorem connection_log_proof : connection_log_stmt.
+Proof.
+  intros norm maxc fuel p scripts w _ _ _.
+  apply (run_loop_log_inv norm maxc fuel p scripts 0%nat w [] (wlog w)); [constructor|exact I|constructor|apply is_prefix_refl].
+Qed.
+
+Theorem run_loop_log_erase : run_loop_log_erase_stmt.
+Proof. exact run_loop_log_erase_proof. Qed.
+Print Assumptions run_loop_log_erase.
+
+Theorem connection_log : connection_log_stmt.
+Proof. exact connection_log_proof. Qed.
+Print Assumptions connection_log.
